@@ -218,7 +218,7 @@ class Request(HTTPConnection):
                 body = (await self.body).decode(
                     encoding=self.content_type.options.get("charset", "latin-1")
                 )
-            except (UnicodeError, LookupError) as exc:
+            except (ValueError, LookupError) as exc:  # UnicodeError is a ValueError
                 raise HTTPException(400, content=f"Malformed form data: {exc}") from None
             return FormData(parse_qsl(body, keep_blank_values=True))
 
